@@ -70,49 +70,57 @@ func TestF21StreamsMapRace(t *testing.T) {
 	<-done
 }
 
-// F19: lost wake-up. Read checks that the buffer is empty, releases the lock
-// and only then waits on the unbuffered readReady channel; a packet handled in
-// between is stored but its non-blocking notification finds no waiter, so Read
-// sleeps although data is buffered (until the next packet, or forever for the
-// last one). Stress test: one byte per packet, the reader must see every byte
-// within the deadline.
+// F19: lost wake-up. Read checked that the buffer was empty, released the lock
+// and only then waited on the unbuffered readReady channel; a packet handled in
+// between was stored but its non-blocking notification found no waiter, so Read
+// slept although data was buffered (until the next packet, or for ever after
+// the last one). Each iteration sends one complete base64 group (3 bytes; Flush
+// does not emit a partial group) while a Read is being started; on the
+// unrepaired code the reader hangs after a few thousand iterations.
+// (An earlier version of this test wrote one byte per packet and blamed the
+// missing 400th byte on the wake-up; that byte was simply still in the base64
+// encoder. The schedule above is the real demonstration.)
 func TestF19LostWakeup(t *testing.T) {
 	cs, ch, _, ln := f21pair(t)
-	const n = 400
-	got := make(chan int, 1)
+	accepted := make(chan *ibb.Conn, 1)
 	go func() {
 		c, err := ln.Accept()
-		if err != nil {
-			return
+		if err == nil {
+			accepted <- c.(*ibb.Conn)
 		}
-		buf := make([]byte, 1)
-		total := 0
-		for total < n {
-			k, err := c.Read(buf)
-			total += k
-			if err != nil {
-				break
-			}
-		}
-		got <- total
 	}()
 	ctx, cancel := context.WithTimeout(context.Background(), 5*time.Second)
 	defer cancel()
-	conn, err := ch.Open(ctx, cs.Client, cs.Server.LocalAddr())
+	w, err := ch.Open(ctx, cs.Client, cs.Server.LocalAddr())
 	if err != nil {
 		t.Fatal(err)
 	}
-	for i := 0; i < n; i++ {
-		conn.Write([]byte("x"))
-		conn.Flush()
-	}
-	select {
-	case total := <-got:
-		if total != n {
-			t.Errorf("reader got %d of %d bytes", total, n)
+	r := <-accepted
+	buf := make([]byte, 3)
+	for i := 0; i < 30000; i++ {
+		done := make(chan struct{})
+		go func() {
+			n := 0
+			for n < 3 {
+				k, err := r.Read(buf[n:])
+				n += k
+				if err != nil {
+					break
+				}
+			}
+			close(done)
+		}()
+		if _, err := w.Write([]byte("abc")); err != nil {
+			t.Fatal(err)
 		}
-	case <-time.After(3 * time.Second):
-		t.Errorf("reader is asleep although all %d bytes were delivered to its buffer (lost wake-up)", n)
+		if err := w.Flush(); err != nil {
+			t.Fatal(err)
+		}
+		select {
+		case <-done:
+		case <-time.After(2 * time.Second):
+			t.Fatalf("iteration %d: the packet was acknowledged but the reader is still asleep (lost wake-up)", i)
+		}
 	}
 }
 
